@@ -318,6 +318,25 @@ def _nparray(engine, run, a, k):
 _old_array = models.EXTERNALS["numpy.asarray"]
 
 
+def _minmax_cell(is_min):
+    def f(engine, run, a, k):
+        if len(a) != 2 or k:
+            raise Undecided("np.minimum / np.maximum with options")
+        x, y = [v.cell if isinstance(v, SRequested) else v for v in a]
+        if isinstance(y, SCell) and not isinstance(x, SCell):
+            x, y = y, x
+        if isinstance(x, SCell) and not isinstance(y, SCell):
+            xv, yv = to_real(x.v), to_real(y)
+            run.trust("numpy: np.minimum / np.maximum(array, scalar) is element-wise")
+            return SCell(z3.If((xv <= yv) if is_min else (xv >= yv), xv, yv), x.space)
+        raise Undecided("np.minimum / np.maximum of these operands")
+    return f
+
+
+models.EXTERNALS["numpy.minimum"] = _minmax_cell(True)
+models.EXTERNALS["numpy.maximum"] = _minmax_cell(False)
+
+
 class SPrepended:
     """np.r_[c, arr]"""
 
@@ -567,11 +586,22 @@ def _conc_sf(self, case, inputs):
     kreq = None
     kw = dict(smoothing=sm, add_zero=case["add_zero"])
     if case["wave_numbers"] == "given":
-        kreq = np.array([0.0, 0.9, 0.31, 2.0]) / max(dx) if inputs["seed"] % 2 else np.array([0.4, 0.1, 1.7]) / max(dx)
+        # unsorted, with 0, and with a value beyond the largest wave number of the grid
+        kreq = np.array([0.0, 0.9, 0.31, 2.0, 40.0 / min(dx)]) / 1.0 if inputs["seed"] % 2 else np.array([0.4, 0.1, 1.7]) / max(dx)
+        if inputs["seed"] % 2:
+            kreq[:4] /= max(dx)
         kw["wave_numbers"] = kreq
     elif case["wave_numbers"] == "none":
         kw["wave_numbers"] = None
     bad = []
+    if dim >= 2 and len(set(dx)) > 1:
+        # no hidden state: an earlier call on a grid of the same shape and volume but other spacings must not influence this one
+        dxp = dx[1:] + dx[:1]
+        decoy = pde.CartesianGrid([(l, l + n * d) for l, n, d in zip(lo, shape, dxp)], shape, periodic=not case.get("nonperiodic"))
+        try:
+            get_structure_factor(pde.ScalarField(decoy, base), **kw)
+        except Exception:   # noqa: BLE001
+            pass
     try:
         k, s = get_structure_factor(f, **kw)
     except Exception as e:   # noqa: BLE001
